@@ -1,5 +1,6 @@
 import F3.Proofs.ValidatorCached
 import F3.Proofs.ValidatorSound
+import F3.Proofs.ValidBridge
 /-!
 # C05 — Message validation is sound, complete when relevant, and history-independent
 
@@ -194,5 +195,26 @@ example : (validate cfg0 comt0 ⟨7, 0, QUALITY⟩ warm0 m0).1 = .tooOld := by d
 example : (validate cfg0 comt0 ⟨5, 2, PREPARE⟩ warm0 m0).1 = .notRelevant := by decide
 example : relevant cfg0.lookback prog0 m0.vote ∧ Committee.uniqueIds c0 ∧ ProgBounds cfg0 prog0 m0.vote :=
   ⟨by decide, by simp [Committee.uniqueIds, c0], ⟨by decide, by decide, by decide, by decide⟩⟩
+
+
+/-! ## What validation hands to consensus -/
+
+/-- **An accepted message satisfies the hypothesis of the consensus proofs.** Whatever the cache history, a
+message the validator model accepts is — read symbolically: the signature tokens it carries were produced by
+the owners of the keys (`hsig`, `hagg`: unforgeability) — a `MsgValid` delivery in the vocabulary of the
+instance model: the vote exists, the sender has power, the shape is the one its phase prescribes and its
+justification is a strong quorum of existing votes.  `C01.agreement_model` and `C02.validity_model` assume
+exactly this of every delivered message. -/
+theorem accepted_message_meets_consensus_hypothesis (cfg : Cfg) (comt : Nat → Option Committee) (prog : Progress)
+    (cache : VCache) (hs : CacheSound cfg comt cache) (m : Msg) (hw : WireMsg m)
+    (h : (validate cfg comt prog cache m).1 = .accept)
+    (hu : ∀ c, comt m.vote.inst = some c → (c.entries.map (·.id)).Nodup)
+    (Signed : Nat → SigMsg → Prop) (hsig : ∀ pub x, m.sig = Sig.tok pub x → Signed pub x)
+    (hagg : ∀ j, m.just = some j → ∀ sg x, j.agg = Agg.tok sg x → ∀ p ∈ sg, Signed p.2 x) :
+    ∃ c, comt m.vote.inst = some c ∧
+      F3.Instance.MsgValid (F3.ValidBridge.Wsig Signed cfg.net m.vote.inst m.vote.supp c) (F3.ValidBridge.tableOf c)
+        (F3.ValidBridge.absMsg m) := by
+  obtain ⟨c, hc, hv⟩ := validate_sound cfg comt prog cache hs m hw h
+  exact ⟨c, hc, F3.ValidBridge.validMsg_MsgValid Signed cfg.net c (hu c hc) m hv hsig hagg⟩
 
 end F3.Props.C05
